@@ -189,7 +189,7 @@ class GridSearch(BaseEstimator, MetaEstimatorMixin):
             if len(y_reduction_unique) == 1:
                 logger.debug("y_reduction had single value. Using DummyClassifier")
                 current_estimator = DummyClassifier(
-                    strategy="constant", constant=y_reduction_unique[0]
+                    strategy="constant", constant=y_reduction_unique
                 )
             else:
                 logger.debug("Using underlying estimator")
